@@ -65,6 +65,15 @@ Fixpoint seen_at {R} (seen : list R) (h : list (op R)) : list (list R) :=
 Fixpoint computes {R} (h : list (op R)) : nat :=
   match h with [] => O | Update _ :: t => computes t | Compute :: t => S (computes t) end.
 
+(* ---- run-length encoded batches (very large trace counts): a row repeated c times contributes c times its contribution,
+   computed with O(log c) additions (Pos.iter_op); equal to the expanded batch by Proofs/Batching.rl_oneshot_expand *)
+Definition expand {R} (runs : list (R * positive)) : list R := flat_map (fun rc => repeat (fst rc) (Pos.to_nat (snd rc))) runs.
+Definition ptimes (A : accum) (c : positive) (x : a_St A) : a_St A := Pos.iter_op (a_plus A) c x.
+Definition rl_bsum (A : accum) (runs : list (a_R A * positive)) : a_St A :=
+  fold_right (fun rc a => a_plus A (ptimes A (snd rc) (a_contrib A (fst rc))) a) (a_zero A) runs.
+Definition rl_oneshot (A : accum) (runs : list (a_R A * positive)) : a_O A := a_comp A (a_plus A (a_zero A) (rl_bsum A runs)).
+Definition rl_total {R} (runs : list (R * positive)) : Z := fold_right (fun rc a => (Zpos (snd rc) + a)%Z) 0%Z runs.
+
 (* ================================================================================ 2. the ten instances *)
 (* --- CPA, alternative CPA: one entry = (sample, word); state (n, sx, sxx, sy, syy, sxy, running extrema) *)
 Definition cpa_inst : accum :=
@@ -450,4 +459,118 @@ Definition bexpected (c : bcase) : list (list bexp) :=
   | KTtest =>
       map (map (fun e : option Ttest.mv => EMeanVar (option_map (fun x : Ttest.mv => (this (fst x), this (snd x))) e)))
           (expected_of (ttest_table S) [] (conv_hist (to_trow c) h))
+  end.
+
+(* ================================================================================ 6. very large batches (run-length encoded) *)
+(* One very large update() against several: n = 65535 .. 200000 traces with few distinct rows, given as runs (row, count).
+   Integer inputs, float64 precision: every running sum is exact, the designs are well conditioned, so the comparison is
+   "equal up to a few float64 roundings of the final formula": relative 2^-40 (MIA: the 2^-30 of its ln table). *)
+Definition lrow : Type := ((list Z * list Z) * positive)%type.
+
+Record lcase := {
+  l_kind : dkind;
+  l_S : nat;
+  l_W : nat;
+  l_parts : list Z;
+  l_edges : list fval;
+  l_ln : list (Z * fval);             (* MIA: (k, ln k) for the integers the probabilities are made of *)
+  l_pden : positive; l_T : list (list Z); l_P : list (list Z);
+  l_batches : list (list lrow);       (* the update() calls, each followed by a compute() *)
+  l_obs : list (Z * list fval);       (* per compute(): processed_traces, values in C order *)
+  l_oneshot : list fval               (* a fresh object fed everything in ONE update() *)
+}.
+
+Definition near (q : Qc) (v : fval) : bool :=
+  match v with Fin m e => q_close (Qmake 1 (2 ^ 40)) (Qmake 1 (2 ^ 60)) (q_of_fin m e) (this q) | _ => false end.
+Definition near_o (o : option Qc) (v : fval) : bool := match o with None => is_nan v | Some q => near q v end.
+Definition near_corr (t : option Cpa.triple) (v : fval) : bool :=
+  match t, v with
+  | None, _ => is_nan v
+  | Some (num, dx, dy), Fin m e => Cpa.close_r (q_of_fin m e) (Qmake 1 (2 ^ 40)) num (dx * dy)%Qc
+  | _, _ => false
+  end.
+Definition near_mia (o : option Qc) (v : fval) : bool := fval_matches 0 (Qmake 1 (2 ^ 30)) v (option_map this o).
+
+Definition lq (r : list Z * list Z) : qrow := (map qz (fst r), map qz (snd r)).
+Definition lzr (r : list Z * list Z) : zrow := (map qz (fst r), snd r).
+Definition lbr (r : list Z * list Z) : Template.brow := (nth 0 (snd r) (-1), map qz (fst r)).
+Definition lmr (r : list Z * list Z) : Template.mrowt := (snd r, map qz (fst r)).
+Definition ltr (r : list Z * list Z) : list Qc := map qz (fst r).
+Definition conv_runs {R} (f : list Z * list Z -> R) (b : list lrow) : list (R * positive) := map (fun rc => (f (fst rc), snd rc)) b.
+
+Fixpoint lwalk (A : accum) (cmp : a_O A -> list fval -> bool) (seen : list (a_R A * positive))
+               (bs : list (list (a_R A * positive))) (os : list (Z * list fval)) : bool :=
+  match bs, os with
+  | [], [] => true
+  | b :: bs', o :: os' =>
+      let seen' := seen ++ b in
+      Z.eqb (fst o) (rl_total seen') && cmp (rl_oneshot A seen') (snd o) && lwalk A cmp seen' bs' os'
+  | _, _ => false
+  end.
+Definition lhist_ok (A : accum) (cmp : a_O A -> list fval -> bool) (bs : list (list (a_R A * positive)))
+                    (os : list (Z * list fval)) (one : list fval) : bool :=
+  lwalk A cmp [] bs os && match one with [] => true | _ => cmp (rl_oneshot A (concat bs)) one end.
+
+Definition lcheck (c : lcase) : bool :=
+  let S := l_S c in let W := l_W c in let bs := l_batches c in
+  forallb (fun b => forallb (fun rc : lrow => Nat.eqb (length (fst (fst rc))) S && Nat.eqb (length (snd (fst rc))) W) b
+                    && match b with [] => false | _ => true end) bs
+  && negb (Nat.eqb S 0)
+  && match l_kind c with
+     | KCpa => lhist_ok (cpa_table W S) (forallb2 near_corr) (map (conv_runs lq) bs) (l_obs c) (l_oneshot c)
+     | KCpaAlt => lhist_ok (cpa_alt_table W S) (forallb2 near_corr) (map (conv_runs lq) bs) (l_obs c) (l_oneshot c)
+     | KDpa => lhist_ok (dpa_table W S) (forallb2 near_o) (map (conv_runs lzr) bs) (l_obs c) (l_oneshot c)
+     | KPart m => lhist_ok (part_table m (l_parts c) W S) (forallb2 near_o) (map (conv_runs lzr) bs) (l_obs c) (l_oneshot c)
+     | KMia =>
+         match Mia.all_some (map fval_qc (l_edges c)), Mia.all_some (map Mia.ln_pair (l_ln c)) with
+         | Some edges, Some lntab =>
+             Mia.edges_ok Mia.mia_tol edges
+             && lhist_ok (mia_table edges (Mia.est_exact edges) (l_parts c) (Mia.phi_ln_assoc lntab) W S) (forallb2 near_mia)
+                         (map (conv_runs lzr) bs) (l_obs c) (l_oneshot c)
+         | _, _ => false
+         end
+     | KTBuild =>
+         Nat.eqb W 1 && negb (Nat.eqb (length (l_parts c)) 0)
+         && lhist_ok (tbuild_inst (l_parts c) S)
+                     (fun tc vals => forallb2 near (concat (fst tc) ++ concat (snd tc)) vals)
+                     (map (conv_runs lbr) bs) (l_obs c) (l_oneshot c)
+     | KTMatch m =>
+         let K := length (l_parts c) in
+         let G := match m with Template.Static => K | Template.Dpa => W end in
+         mat_rect K S (l_T c) && mat_rect S S (l_P c) && negb (Nat.eqb K 0)
+         && lhist_ok (tmatch_inst (qmat (l_pden c) (l_P c)) S (qmat (l_pden c) (l_T c)) m (l_parts c) G) (forallb2 near)
+                     (map (conv_runs lmr) bs) (l_obs c) (l_oneshot c)
+     | KTtest =>
+         Nat.eqb W 0
+         && lhist_ok (ttest_table S)
+                     (fun exp vals => Nat.eqb (length vals) (2 * S)
+                        && forallb2 (fun s e => match e with
+                                                | Some m => near (fst m) (nth s vals NaN) && near (snd m) (nth (S + s) vals NaN)
+                                                | None => false end) (seq 0 S) exp)
+                     (map (conv_runs ltr) bs) (l_obs c) (l_oneshot c)
+     end.
+
+Definition lexpected (c : lcase) : list bexp :=
+  let S := l_S c in let W := l_W c in let all := concat (l_batches c) in
+  match l_kind c with
+  | KCpa => map show_triple (rl_oneshot (cpa_table W S) (conv_runs lq all))
+  | KCpaAlt => map show_triple (rl_oneshot (cpa_alt_table W S) (conv_runs lq all))
+  | KDpa => map show_val (rl_oneshot (dpa_table W S) (conv_runs lzr all))
+  | KPart m => map show_val (rl_oneshot (part_table m (l_parts c) W S) (conv_runs lzr all))
+  | KMia =>
+      match Mia.all_some (map fval_qc (l_edges c)), Mia.all_some (map Mia.ln_pair (l_ln c)) with
+      | Some edges, Some lntab =>
+          map show_val (rl_oneshot (mia_table edges (Mia.est_exact edges) (l_parts c) (Mia.phi_ln_assoc lntab) W S) (conv_runs lzr all))
+      | _, _ => []
+      end
+  | KTBuild =>
+      let tc := rl_oneshot (tbuild_inst (l_parts c) S) (conv_runs lbr all) in
+      map (fun q : Qc => EVal (Some (this q))) (concat (fst tc) ++ concat (snd tc))
+  | KTMatch m =>
+      let G := match m with Template.Static => length (l_parts c) | Template.Dpa => W end in
+      map (fun q : Qc => EVal (Some (this q)))
+          (rl_oneshot (tmatch_inst (qmat (l_pden c) (l_P c)) S (qmat (l_pden c) (l_T c)) m (l_parts c) G) (conv_runs lmr all))
+  | KTtest =>
+      map (fun e : option Ttest.mv => EMeanVar (option_map (fun x : Ttest.mv => (this (fst x), this (snd x))) e))
+          (rl_oneshot (ttest_table S) (conv_runs ltr all))
   end.
